@@ -85,6 +85,12 @@ func (l *patchLoader) LoadFileList(patchList string) (err error) {
 			return fmt.Errorf("load patch %q: %w", path, err)
 		}
 	}
+	// The scanner stops quietly when the list cannot be read (it is a
+	// directory, say) or has a line that is too long for it. The patches
+	// after that point would be left out without a word.
+	if err := scanner.Err(); err != nil {
+		return fmt.Errorf("read patch list %q: %w", patchList, err)
+	}
 	return nil
 }
 
